@@ -289,3 +289,27 @@ Proof.
   split; [vm_compute; reflexivity|]. split; [apply wf_traceb_spec; vm_compute; reflexivity|].
   split; [vm_compute; reflexivity|]. split; vm_compute; reflexivity.
 Qed.
+
+(** ** How handleMessage and the decoder read a frame (Sni/WireCut.v)
+
+    handleMessage makes no read on the frame reader itself -- no [r.Read],
+    no [io.ReadFull(r, ..)] of its own: header and body go through the
+    decoder -- except for draining what is left to EOF; and every read the
+    decoder makes from its reader is [io.ReadFull] (fixed-size fields and
+    byte strings), [io.CopyN] (skipping the rest of an over-long byte
+    string), [io.ReadAll], or the loop of [end] that reads until EOF.  None
+    of them returns before its buffer is full or the frame has ended, so how
+    the frame's bytes are cut into reads cannot matter (the [handle
+    read_full] of the model). *)
+Local Close Scope N_scope.
+Lemma gen_handleMessage_no_direct_reads :
+  gen_handleMessage_direct_reads = [] /\ gen_handleMessage_drains = ["io.Copy(io.Discard, r)"%string].
+Proof. vm_compute. split; reflexivity. Qed.
+
+Lemma gen_decoder_reads_full :
+  gen_decoder_reads =
+    [ ("decoder.read", "io.ReadFull", "once");
+      ("decoder.rest", "io.ReadAll", "once");
+      ("decoder.bytes", "io.CopyN", "once");
+      ("decoder.end", "d.r.Read", "in a loop until EOF or error") ]%string.
+Proof. vm_compute. reflexivity. Qed.
